@@ -430,13 +430,13 @@ func TestPropExportImport(t *testing.T) {
 		}
 
 		preserve := rapid.Bool().Draw(t, "preserveIDs")
-		where := rapid.SampledFrom([]string{"otherNode", "rootNode", "secondInstance", "otherNode", "rootNode", "secondInstance", "replaceRoot", "restoreDeleted", "rootOntoItself"}).Draw(t, "target")
+		where := rapid.SampledFrom([]string{"otherNode", "rootNode", "secondInstance", "otherNode", "rootNode", "secondInstance", "replaceRoot", "restoreDeleted", "rootOntoItself", "restoreChanged"}).Draw(t, "target")
 		dst := src
 		parent := ""
 		switch {
 		case where == "rootOntoItself":
 			// handled below
-		case preserve && where != "restoreDeleted":
+		case preserve && where != "restoreDeleted" && where != "restoreChanged":
 			// preserved ids go to a second instance (on the same one they would name
 			// the very nodes that were exported); the parent there has the original
 			// parent's id, another id, or is the instance root
@@ -450,6 +450,28 @@ func TestPropExportImport(t *testing.T) {
 			if parent != "inst2" {
 				write(t, dst, parent, "inst2", data.Points{{Type: data.PointTypeTombstone, Time: g.tick()}, {Type: data.PointTypeNodeType, Text: data.NodeTypeGroup}})
 			}
+		case where == "restoreChanged":
+			// restore over a tree that is still there but has been changed since
+			// the export: afterwards it holds what was exported again
+			preserve = true
+			nch := 0
+			for _, n := range g.all {
+				if n.deleted || !liveInTree(root, n) {
+					continue
+				}
+				for _, pt := range n.points {
+					if pt.Type == "marker" || pt.Type == data.PointTypeDescription || pt.Type == data.PointTypeNodeID || pt.Tombstone != 0 {
+						continue
+					}
+					write(t, src, n.id, "", data.Points{{Type: pt.Type, Key: pt.Key, Value: pt.Value + 1, Text: "changed since", Time: g.tick()}})
+					nch++
+					break
+				}
+			}
+			if nch == 0 {
+				where = "restoreChanged(nothing to change)"
+			}
+			parent = "holder"
 		case where == "restoreDeleted":
 			// the backup-and-restore use: the exported subtree is deleted, then
 			// imported again with its ids under the same parent of the same instance
